@@ -10,6 +10,7 @@ CFG = dict(
               "prefix: collect_loc_rib_paths_limited(N) is the N-prefix of the full ranking; ecmp_paths (IPv4) is exactly the "
               "leading run equal to the best on every step before router-id",
               "history-free: all arrival / re-marking orders of one path set report a best with the same reference key",
+              "rs-local: the single path of destinations(TableQuery::RsLocal(peer)) is not beaten by any other RS client's unfiltered, next-hop-valid path (ties legal)",
               "no panic in any table operation (debug: overflow checks on)"],
     assumptions=["MAC-mobility sequence numbers are >= 1 when present (absent vs. sequence 0 is not fixed by the statement)",
                  "ORIGIN is always present (mandatory attribute); LOCAL_PREF absent = 100",
@@ -18,11 +19,15 @@ CFG = dict(
     floor=dict(evaluations=120000, nontrivial=80000,
                counters=dict([("decided:" + s, 3000) for s in _STEPS] + [
                    ("decided:tie", 3000), ("matrix:complete-passes", 2), ("held:history-free", 300), ("perm:orders", 15000),
-                   ("histories", 3000), ("observed:change:restale", 8000), ("observed:change:restale_llgr", 2000),
+                   ("histories", 2400), ("observed:change:restale", 8000), ("observed:change:restale_llgr", 2000),
                    ("observed:change:drop_stale", 40), ("observed:change:drop_llgr_stale", 300),
                    ("observed:change:nexthop-validity", 5000), ("observed:change:remove", 2000), ("observed:change:drop", 1500),
                    ("state:has-aspath-over-255", 3000), ("ecmp:expected-run>=2", 2000), ("fam:evpn-type2", 40000),
-                   ("state:mixed-eligible-ineligible", 60000), ("profile:debug", 1), ("profile:release", 1)])),
+                   ("state:mixed-eligible-ineligible", 60000), ("profile:debug", 1), ("profile:release", 1),
+                   ("tie-histories", 2000), ("tie:disturb:restale", 4000), ("tie:disturb:restale_llgr", 1500),
+                   ("tie:disturb:nexthop-flip", 1500), ("tie:disturb:filtered-replacement", 2000),
+                   ("tie:follow-up-insert", 15000), ("tie:remove-best", 10000),
+                   ("rs-local:judged-with>=2-candidates", 40000)])),
     # release shards get their own seeds (seed_offset) so the two profiles do not replay identical inputs
     quick=[e1("all", "c02", "debug", 2, 40), dict(e1("all", "c02", "release", 2, 40), seed_offset=500)],
     thorough=[e1("matrix", "c02", "debug", 2, 200, part="matrix"),
